@@ -141,6 +141,20 @@ func TestExh_C16(t *testing.T) {
 		// a lock-taking call from inside Configure ends the handshake by timeout (300 ms here)
 		run(C16Case{Actions: []Action{{Op: "start", Script: raw(300, 300, false)}, {Op: "stop"},
 			{Op: "start", Script: short(hooked("raw", "configure", "stop"))}, {Op: "start", Script: short(hooked("raw", "configure", "isstarted"))}}})
+		// the plugin's own Configure handler rejects the configuration: against the adaptation
+		// (drops the plugin), the raw peer keeping the connection, the raw peer closing it
+		for _, fail := range []string{"error", "badmask"} {
+			for _, s := range []*Script{
+				{Kind: "healthy", CfgFail: fail},
+				{Kind: "raw", RegMs: 5000, ReqMs: 2000, CfgFail: fail},
+				{Kind: "raw", RegMs: 5000, ReqMs: 2000, CfgFail: fail, CloseAfter: true},
+			} {
+				fast := *s
+				fast.Fast = true
+				run(C16Case{Actions: []Action{{Op: "start", Script: s}, {Op: "wait"}, {Op: "start", Script: sc("healthy")}, {Op: "probe"}}})
+				run(C16Case{Actions: []Action{{Op: "start", Script: &fast}, {Op: "start", Script: sc("healthy")}, {Op: "probe"}}})
+			}
+		}
 		// very large values: the silent ends are not issued, everything else goes on
 		run(C16Case{Actions: []Action{{Op: "start", Script: raw(1000000000000, 3600000, false)}, {Op: "probe"}, {Op: "bulkstop", KB: 100, WaitMs: 1}, quiet("silent"), {Op: "start", Script: sc("healthy")}, {Op: "probe"}}})
 		// the defaults of a fresh stub (5 s each) and what the adaptation sends (2 s): 14 s of
